@@ -223,106 +223,7 @@ func runC04(c *Ctx) {
 		}
 	}
 
-	// ---- R4.3b doProgressingReset
-	if fn := p.Func("pkg/controller/rollout.RolloutReconciler.doProgressingReset"); fn == nil {
-		c.Unresolved("R4.3b", "RolloutReconciler.doProgressingReset")
-	} else {
-		gw := CallsIn(fn, "trafficrouting.Manager.RestoreGateway")
-		rmSvc := CallsIn(fn, "trafficrouting.Manager.RemoveCanaryService")
-		var rmBR []ssa.CallInstruction
-		for _, call := range CallsIn(fn, "rollout.removeBatchRelease") {
-			// the one on the traffic-routing branch
-			if HasFact(FactsAtInstr(call), FTrue(MCall("HasTrafficRoutings"))) {
-				rmBR = append(rmBR, call)
-			}
-		}
-		if len(gw) != 1 || len(rmSvc) != 1 || len(rmBR) != 1 {
-			c.Ob("R4.3b", "doProgressingReset#stages", fn.Pos(), false, "expected one RestoreGateway, one removeBatchRelease (traffic branch) and one RemoveCanaryService call",
-				fmt.Sprintf("found %d/%d/%d", len(gw), len(rmBR), len(rmSvc)))
-		} else {
-			isInstr := func(x ssa.CallInstruction) func(ssa.Instruction) bool {
-				return func(in ssa.Instruction) bool { return in == x.(ssa.Instruction) }
-			}
-			trBranch := FTrue(MCall("HasTrafficRoutings"))
-			_ = trBranch
-			// stage 2 reachable only via (cursor == ReleaseWorkloadControl) or success of stage 1
-			stage := func(label string, prev ssa.CallInstruction, cur ssa.CallInstruction, curTask string, needRetry bool) {
-				cut := func(b *ssa.BasicBlock, k int) bool {
-					if EdgeFactMatches(b, k, FCmp("==", MField("FinalisingStep"), MConst(val[curTask]))) {
-						return true
-					}
-					return false
-				}
-				// from entry, without the resume-at-this-stage edge, the stage is reachable only through prev's success
-				needs := []FactM{FNil(MResultOf(prev, 1))}
-				names := []string{"err == nil"}
-				if needRetry {
-					needs = append(needs, FFalse(MResultOf(prev, 0)))
-					names = append(names, "retry == false")
-				}
-				var by []string
-				for i, n := range needs {
-					n := n
-					reach, _ := CanReach(Entry(fn), isInstr(cur), ReachOpts{CutEdge: func(b *ssa.BasicBlock, k int) bool { return cut(b, k) || EdgeFactMatches(b, k, n) }})
-					if reach {
-						by = append(by, names[i])
-					}
-				}
-				c.Ob("R4.3b", "doProgressingReset#"+label, cur.Pos(), len(by) == 0, label+" only after the previous stage succeeded (or when resuming at the persisted cursor "+curTask+")",
-					ifs(len(by) > 0, "stage reachable without "+strings.Join(by, ", ")+" of "+CalleeName(prev.Common())))
-			}
-			stage("removeBatchRelease-after-RestoreGateway", gw[0], rmBR[0], tRelease, true)
-			stage("RemoveCanaryService-after-removeBatchRelease", rmBR[0], rmSvc[0], tRemoveSvc, true)
-			// cursor stores
-			for _, st := range FieldStores([]*ssa.Function{fn}, "", "FinalisingStep") {
-				v, isC := StoredConst(st)
-				tgt := func(in ssa.Instruction) bool { return in == ssa.Instruction(st) }
-				switch {
-				case isC && v == val[tToStable]:
-					c.Ob("R4.3b", "doProgressingReset#store(RouteTrafficToStable)", st.Pos(), true, "cursor (re)starts at the first stage", "")
-				case isC && v == val[tRelease]:
-					ok, by := OnlyVia(Entry(fn), tgt, FNil(MResultOf(gw[0], 1)), FFalse(MResultOf(gw[0], 0)))
-					c.Ob("R4.3b", "doProgressingReset#store(ReleaseWorkloadControl)", st.Pos(), ok, "cursor moves past the gateway stage only after RestoreGateway succeeded", ifs(!ok, "bypasses "+pick(by, "err == nil", "retry == false")))
-				case isC && v == val[tRemoveSvc]:
-					ok, by := OnlyVia(Entry(fn), tgt, FNil(MResultOf(rmBR[0], 1)), FFalse(MResultOf(rmBR[0], 0)))
-					c.Ob("R4.3b", "doProgressingReset#store(RemoveCanaryService)", st.Pos(), ok, "cursor moves past the BatchRelease stage only after removeBatchRelease succeeded", ifs(!ok, "bypasses "+pick(by, "err == nil", "retry == false")))
-				default:
-					c.Ob("R4.3b", "doProgressingReset#store(other)", st.Pos(), false, "unexpected cursor store", "undecided: value "+TermOf(st.Val).String())
-				}
-			}
-			// done results
-			for _, ret := range returnsOf(fn) {
-				for _, lf := range Leaves(ret.Results[0], ret.Block()) {
-					t := TermOf(lf.V)
-					if t.Op != "const" {
-						c.Ob("R4.3b", "doProgressingReset#return(non-constant)", ret.Pos(), false, "done result is not a constant", "undecided: "+t.String())
-						continue
-					}
-					if t.Name != "true" {
-						continue
-					}
-					ok := false
-					why := ""
-					switch {
-					case HasFact(lf.Facts, FFalse(MCall("HasTrafficRoutings"))):
-						// no traffic routing: only the BatchRelease has to go
-						for _, call := range CallsIn(fn, "rollout.removeBatchRelease") {
-							if HasFact(lf.Facts, FNil(MResultOf(call, 1))) && HasFact(lf.Facts, FFalse(MResultOf(call, 0))) {
-								ok = true
-							}
-						}
-						why = "no traffic routing: done requires removeBatchRelease (err==nil, retry==false)"
-					case HasFact(lf.Facts, FNil(MCall("GetSubStatus"))):
-						ok = true
-					default:
-						ok = HasFact(lf.Facts, FNil(MResultOf(rmSvc[0], 1)))
-						why = "done requires RemoveCanaryService err == nil"
-					}
-					c.Ob("R4.3b", "doProgressingReset#return(done)", ret.Pos(), ok, "reset reports done only after its last stage succeeded", ifs(!ok, why)).WithFacts(lf.Facts)
-				}
-			}
-		}
-	}
+	checkResetChain(c, "R4.3b", val)
 
 	// ---- R4.3c FinalisingTrafficRouting
 	if fn := p.Func("pkg/trafficrouting.Manager.FinalisingTrafficRouting"); fn == nil {
@@ -490,4 +391,109 @@ func checkLookup(c *Ctx, fn *ssa.Function, endVal string) {
 			}
 		}
 	}
+}
+
+// checkResetChain decides the stage chain of doProgressingReset (gateway, then BatchRelease, then canary Service).
+func checkResetChain(c *Ctx, rule string, val map[string]string) {
+	p := c.Prog
+	if fn := p.Func("pkg/controller/rollout.RolloutReconciler.doProgressingReset"); fn == nil {
+		c.Unresolved(rule, "RolloutReconciler.doProgressingReset")
+	} else {
+		gw := CallsIn(fn, "trafficrouting.Manager.RestoreGateway")
+		rmSvc := CallsIn(fn, "trafficrouting.Manager.RemoveCanaryService")
+		var rmBR []ssa.CallInstruction
+		for _, call := range CallsIn(fn, "rollout.removeBatchRelease") {
+			// the one on the traffic-routing branch
+			if HasFact(FactsAtInstr(call), FTrue(MCall("HasTrafficRoutings"))) {
+				rmBR = append(rmBR, call)
+			}
+		}
+		if len(gw) != 1 || len(rmSvc) != 1 || len(rmBR) != 1 {
+			c.Ob(rule, "doProgressingReset#stages", fn.Pos(), false, "expected one RestoreGateway, one removeBatchRelease (traffic branch) and one RemoveCanaryService call",
+				fmt.Sprintf("found %d/%d/%d", len(gw), len(rmBR), len(rmSvc)))
+		} else {
+			isInstr := func(x ssa.CallInstruction) func(ssa.Instruction) bool {
+				return func(in ssa.Instruction) bool { return in == x.(ssa.Instruction) }
+			}
+			trBranch := FTrue(MCall("HasTrafficRoutings"))
+			_ = trBranch
+			// stage 2 reachable only via (cursor == ReleaseWorkloadControl) or success of stage 1
+			stage := func(label string, prev ssa.CallInstruction, cur ssa.CallInstruction, curTask string, needRetry bool) {
+				cut := func(b *ssa.BasicBlock, k int) bool {
+					if EdgeFactMatches(b, k, FCmp("==", MField("FinalisingStep"), MConst(val[curTask]))) {
+						return true
+					}
+					return false
+				}
+				// from entry, without the resume-at-this-stage edge, the stage is reachable only through prev's success
+				needs := []FactM{FNil(MResultOf(prev, 1))}
+				names := []string{"err == nil"}
+				if needRetry {
+					needs = append(needs, FFalse(MResultOf(prev, 0)))
+					names = append(names, "retry == false")
+				}
+				var by []string
+				for i, n := range needs {
+					n := n
+					reach, _ := CanReach(Entry(fn), isInstr(cur), ReachOpts{CutEdge: func(b *ssa.BasicBlock, k int) bool { return cut(b, k) || EdgeFactMatches(b, k, n) }})
+					if reach {
+						by = append(by, names[i])
+					}
+				}
+				c.Ob(rule, "doProgressingReset#"+label, cur.Pos(), len(by) == 0, label+" only after the previous stage succeeded (or when resuming at the persisted cursor "+curTask+")",
+					ifs(len(by) > 0, "stage reachable without "+strings.Join(by, ", ")+" of "+CalleeName(prev.Common())))
+			}
+			stage("removeBatchRelease-after-RestoreGateway", gw[0], rmBR[0], tRelease, true)
+			stage("RemoveCanaryService-after-removeBatchRelease", rmBR[0], rmSvc[0], tRemoveSvc, true)
+			// cursor stores
+			for _, st := range FieldStores([]*ssa.Function{fn}, "", "FinalisingStep") {
+				v, isC := StoredConst(st)
+				tgt := func(in ssa.Instruction) bool { return in == ssa.Instruction(st) }
+				switch {
+				case isC && v == val[tToStable]:
+					c.Ob(rule, "doProgressingReset#store(RouteTrafficToStable)", st.Pos(), true, "cursor (re)starts at the first stage", "")
+				case isC && v == val[tRelease]:
+					ok, by := OnlyVia(Entry(fn), tgt, FNil(MResultOf(gw[0], 1)), FFalse(MResultOf(gw[0], 0)))
+					c.Ob(rule, "doProgressingReset#store(ReleaseWorkloadControl)", st.Pos(), ok, "cursor moves past the gateway stage only after RestoreGateway succeeded", ifs(!ok, "bypasses "+pick(by, "err == nil", "retry == false")))
+				case isC && v == val[tRemoveSvc]:
+					ok, by := OnlyVia(Entry(fn), tgt, FNil(MResultOf(rmBR[0], 1)), FFalse(MResultOf(rmBR[0], 0)))
+					c.Ob(rule, "doProgressingReset#store(RemoveCanaryService)", st.Pos(), ok, "cursor moves past the BatchRelease stage only after removeBatchRelease succeeded", ifs(!ok, "bypasses "+pick(by, "err == nil", "retry == false")))
+				default:
+					c.Ob(rule, "doProgressingReset#store(other)", st.Pos(), false, "unexpected cursor store", "undecided: value "+TermOf(st.Val).String())
+				}
+			}
+			// done results
+			for _, ret := range returnsOf(fn) {
+				for _, lf := range Leaves(ret.Results[0], ret.Block()) {
+					t := TermOf(lf.V)
+					if t.Op != "const" {
+						c.Ob(rule, "doProgressingReset#return(non-constant)", ret.Pos(), false, "done result is not a constant", "undecided: "+t.String())
+						continue
+					}
+					if t.Name != "true" {
+						continue
+					}
+					ok := false
+					why := ""
+					switch {
+					case HasFact(lf.Facts, FFalse(MCall("HasTrafficRoutings"))):
+						// no traffic routing: only the BatchRelease has to go
+						for _, call := range CallsIn(fn, "rollout.removeBatchRelease") {
+							if HasFact(lf.Facts, FNil(MResultOf(call, 1))) && HasFact(lf.Facts, FFalse(MResultOf(call, 0))) {
+								ok = true
+							}
+						}
+						why = "no traffic routing: done requires removeBatchRelease (err==nil, retry==false)"
+					case HasFact(lf.Facts, FNil(MCall("GetSubStatus"))):
+						ok = true
+					default:
+						ok = HasFact(lf.Facts, FNil(MResultOf(rmSvc[0], 1)))
+						why = "done requires RemoveCanaryService err == nil"
+					}
+					c.Ob(rule, "doProgressingReset#return(done)", ret.Pos(), ok, "reset reports done only after its last stage succeeded", ifs(!ok, why)).WithFacts(lf.Facts)
+				}
+			}
+		}
+	}
+
 }
